@@ -179,6 +179,11 @@ CORPUS = [
     'a 1 9007199254740993\na 1 9007199254740992e0\n# EOF\n', 'a 1 -1.5\na 1 -1.4e0\n# EOF\n', 'a 1 -1.5\na 1 -1.6e0\n# EOF\n',
     '# TYPE a histogram\na_bucket{le="nan"} 1\na_bucket{le="+Inf"} 1\n# EOF\n', '# TYPE a histogram\na_bucket{le="-NAN"} 1\na_bucket{le="+Inf"} 1\n# EOF\n',
     '# TYPE a histogram\na_bucket{le="x"} 1\n# EOF\n',
+    'a 1 -0.5\n# EOF\n', 'a 1 -0.0\n# EOF\n', 'a 1 0.-5\n# EOF\n', 'a 1 1.234567891e-05\n# EOF\n', 'a 1 1.5e3\n# EOF\n', 'a 1 -0.5\na 1 -0.25\n# EOF\n',
+    'a 1 1.+5\n# EOF\n', 'a 1 1.5_0\n# EOF\n', 'a 1 -1.5\na 1 -1.25\n# EOF\n', 'a 1 1.0000000001x\n# EOF\n', 'a 1 1.٣\n# EOF\n',
+    '# TYPE a counter\na_total 1 # {a="q\\"q"} 1\n# EOF\n', '# TYPE a counter\na_total 1 # {a="\\\\"} 1\n# EOF\n',
+    '# TYPE a counter\na_total 1 # {a="\\\\\\""} 1\n# EOF\n', '# TYPE a counter\na_total 1 # {a="x\\"} 1\n# EOF\n',
+    '# TYPE a counter\na_total 1 # {"q\\"n"="v"} 1 2\n# EOF\n', '# TYPE a counter\na_total 1 \\" # {a="b"} 1\n# EOF\n',
     # accepted native histograms (not findings; they exercise the struct parser)
     '# TYPE a histogram\na ' + NH + '\n# EOF\n',
     '# TYPE a histogram\na ' + NHFULL + '\n# EOF\n',
@@ -432,7 +437,7 @@ def fn_suite(b, rng, texts):
         b.fn('help', t, False, OP._unescape_help, lib.hx)
 
 
-TS_TEXTS = ['', '0', '1', '-1', '+1', '1.5', '-1.5', '-0.5', '1.', '.5', '1.+5', '1.-5', '1. 5', '1.5e3', '1e3', '1E3', 'nan', 'inf', '-inf', 'Infinity',
+TS_TEXTS = ['-0.5', '-0.0', '-0.000000001', '0.5', '1.234567891e-05', '1.5e3', '1.5E3', '-1.5', '1.+5', '1.-5', '1.5_0', '1. 5', '1.5 ', '-00.5', '+0.5', '-0', '', '0', '1', '-1', '+1', '1.5', '-1.5', '-0.5', '1.', '.5', '1.+5', '1.-5', '1. 5', '1.5e3', '1e3', '1E3', 'nan', 'inf', '-inf', 'Infinity',
             '1_0', '1.0_1', ' 1', '1 ', '1\xa0', '٣', '٣.٥', '1.٣', '1.1234567891', '1.999999999', '1.9999999999', '-1.000000001', '0x10',
             '1e400', '1.5.5', '1..5', '.', '-', '1.e3', '1.5e', 'e3', '9' * 4300, '9' * 4301, '1.' + '9' * 5000, '-0', '-0.0', '1.0000000000', 'a',
             '1.00000000a', '1.0000000000a', '١٢٣.٤٥٦']
